@@ -48,6 +48,27 @@ def walk_stmts(stmts, valuation, norm, env=None, stop_pred=None):
     return walk(f, valuation, norm, env=env, stop_pred=stop_pred)
 
 
+def _fold_lookup(e, equalities, norm):
+    """{k1: v1, ...}[K] with K known to equal a literal (equalities: text of K -> literal) is the selected value; (a, b)[0] is a"""
+    class F(ast.NodeTransformer):
+        def visit_Subscript(self, n):
+            self.generic_visit(n)
+            v, sl = n.value, n.slice
+            if isinstance(v, ast.Dict) and all(isinstance(k_, ast.Constant) for k_ in v.keys if k_ is not None):
+                key = sl.value if isinstance(sl, ast.Constant) else equalities.get(norm(sl), None) if equalities else None
+                if key is not None:
+                    for k_, x_ in zip(v.keys, v.values):
+                        if k_ is not None and k_.value == key:
+                            return x_
+            if isinstance(v, (ast.Tuple, ast.List)) and isinstance(sl, ast.Constant) and isinstance(sl.value, int) and -len(v.elts) <= sl.value < len(v.elts):
+                return v.elts[sl.value]
+            return n
+    return F().visit(e)
+
+
+EQUALITIES: Dict[str, object] = {}       # set by callers around a walk: expression text -> literal it is known to equal on the explored case
+
+
 def walk(fn, valuation: Dict[str, bool], norm: Callable[[ast.AST], str], max_steps=400, env=None, stop_pred=None, skip_loops=False):
     """follow the unique path selected by `valuation` (atom text -> truth). Returns ('return', expr) | ('raise', node) | ('fall', None) |
     ('loop', (env, node)) | ('unknown', reason)"""
@@ -72,7 +93,7 @@ def walk(fn, valuation: Dict[str, bool], norm: Callable[[ast.AST], str], max_ste
             core, flip = _strip_not(a)
             txt = norm(_Sub({}).visit(clone(core)))
             # atoms are stated on the function's parameters; a local holding such a test is expanded through env
-            etxt = norm(_fold_ifexp(_Sub(env).visit(clone(core)), valuation, norm))
+            etxt = norm(_fold_lookup(_fold_ifexp(_Sub(env).visit(clone(core)), valuation, norm), EQUALITIES, norm))
             val = None
             if isinstance(core, ast.Constant):
                 val = bool(core.value)          # `if False:` / `if 1:` need no hypothesis
@@ -121,7 +142,7 @@ def walk(fn, valuation: Dict[str, bool], norm: Callable[[ast.AST], str], max_ste
             if isinstance(a, ast.FunctionDef):
                 env[a.name] = a            # a nested def binds its name to a callable (kept as the definition itself)
             elif isinstance(a, ast.Assign) and len(a.targets) == 1 and isinstance(a.targets[0], ast.Name):
-                env[a.targets[0].id] = _fold_ifexp(_Sub(env).visit(clone(a.value)), valuation, norm)
+                env[a.targets[0].id] = _fold_lookup(_fold_ifexp(_Sub(env).visit(clone(a.value)), valuation, norm), EQUALITIES, norm)
             elif isinstance(a, ast.Assign) and len(a.targets) == 1 and isinstance(a.targets[0], ast.Tuple) and isinstance(a.value, ast.Tuple) \
                     and len(a.targets[0].elts) == len(a.value.elts) \
                     and all(isinstance(t, ast.Name) or (isinstance(t, ast.Attribute) and isinstance(t.value, ast.Name)) for t in a.targets[0].elts):
@@ -131,10 +152,10 @@ def walk(fn, valuation: Dict[str, bool], norm: Callable[[ast.AST], str], max_ste
             elif isinstance(a, ast.Assign) and len(a.targets) == 1 and isinstance(a.targets[0], ast.Tuple) and not isinstance(a.value, ast.Tuple) \
                     and all(isinstance(t, ast.Name) or (isinstance(t, ast.Attribute) and isinstance(t.value, ast.Name)) for t in a.targets[0].elts):
                 # `x, y = call(...)` / `self.a, self.b = call(...)` unpacks the components of one result
-                val = _Sub(env).visit(clone(a.value))
+                val = _fold_lookup(_Sub(env).visit(clone(a.value)), EQUALITIES, norm)
                 for k_, t in enumerate(a.targets[0].elts):
                     key = t.id if isinstance(t, ast.Name) else f"{t.value.id}.{t.attr}"
-                    env[key] = ast.Subscript(value=clone(val), slice=ast.Constant(value=k_), ctx=ast.Load())
+                    env[key] = _fold_lookup(ast.Subscript(value=clone(val), slice=ast.Constant(value=k_), ctx=ast.Load()), EQUALITIES, norm)
             elif isinstance(a, ast.AugAssign) and isinstance(a.target, ast.Name):
                 cur = env.get(a.target.id, ast.Name(id=a.target.id, ctx=ast.Load()))
                 env[a.target.id] = ast.BinOp(left=clone(cur), op=a.op, right=_Sub(env).visit(clone(a.value)))
